@@ -15,7 +15,7 @@ for path in sorted(glob.glob(os.path.join(HERE, 'vlib', 'props', 'c[0-9]*_*.py')
     except Exception:
         evals = nt = wall = '?'; units = ''
     seeds = []
-    for suffix in ('', 'b', 'c', 'd'):
+    for suffix in ('', 'b', 'c', 'd', 'e'):
         mp = os.path.join(HERE, 'seeded', pid + suffix, 'meta.json')
         if not os.path.exists(mp):
             continue
